@@ -90,6 +90,11 @@ def run_real(scn, choose):
     import lightstreamer_adapter.subscription as SUBM
     from lightstreamer_adapter.interfaces.data import DataProvider
     sched = shim.Sched(choose)
+    if scn.get("fine_seed") is not None:
+        import random as _random
+        sched.fine = _random.Random(scn["fine_seed"])
+        sched.fine_p = scn.get("fine_p", 0.15)
+        sched.max_chunks = 200000
     sock = shim.Socket()
     saved = shim.install(sched, sock, cpu=8)
     run = Run()
@@ -443,6 +448,17 @@ def analyse(run):
     rl = [t for t, ch in enumerate(run.chunks) if ch["tid"] == "R" and ch["op"][0] == "lock" and ch["op"][1] == "mgr"]
     for rid, t in zip(A.order, rl):
         A.arrive[rid] = t
+    # publication time of each executed SUB: the manager-lock chunk of its thread right before the task began
+    A.published = {}
+    for rid, tk in A.task.items():
+        if A.req[rid]["method"] == "SUB" and tk["kind"] == "do":
+            for t in range(tk["begin"], -1, -1):
+                ch = run.chunks[t]
+                if ch["tid"] == tk["tid"] and ch["op"][0] == "lock" and ch["op"][1] == "mgr":
+                    A.published[rid] = t
+                    break
+            else:
+                A.published[rid] = tk["begin"]
     # clearCode time of each processed USB: first manager-lock chunk of its thread after the task ended
     A.cleared = {}
     for rid, tk in A.task.items():
@@ -593,12 +609,12 @@ def oracle_c03(run, A, V):
             V("event-lost", "event for %s submitted at t=%d inside the subscription %s was %s" % (item, t, must, "dropped" if got is None else "tagged " + str(got)))
         # must drop: never subscribed, or unsubscription fully processed
         rids = [rid for rid in A.order if A.req[rid]["item"] == item]
-        first_do = min([A.task[r]["begin"] for r in rids if r in A.task and A.task[r]["kind"] == "do" and A.req[r]["method"] == "SUB"], default=None)
+        first_do = min([A.published[r] for r in rids if r in A.published], default=None)
         drop = first_do is None or (l["read"] is not None and l["read"] < first_do and t < first_do)
         if not drop and l["read"] is not None:
             for r in rids:
                 if r in A.cleared and A.cleared[r] < t:
-                    later_do = [A.task[x]["begin"] for x in rids if x in A.task and A.req[x]["method"] == "SUB" and A.task[x]["kind"] == "do" and A.task[x]["begin"] > A.cleared[r]]
+                    later_do = [A.published[x] for x in rids if x in A.published and A.published[x] > A.cleared[r]]
                     if not later_do or l["read"] < min(later_do):
                         drop = True
         if drop and got is not None:
